@@ -1,3 +1,4 @@
+import oracle_consumer
 import corr_array
 import oracle_threads
 
@@ -17,8 +18,12 @@ def oracle_c19(seed, tier):
     return oracle_threads.check_c19(seed, tier)
 
 
+def oracle_consumer_ops(seed, tier):
+    return oracle_consumer.check(seed, tier)
+
+
 def checks(tier):
-    return [corr_getitem, oracle_c19]
+    return [corr_getitem, oracle_c19, oracle_consumer_ops]
 
 
 def replay(payload):
